@@ -93,6 +93,13 @@ func judge(c Case, w *vkit.W) {
 		}
 		got := sentinel
 		err := got.UnmarshalBinary(data)
+		if err != nil {
+			// the error belongs to the caller as well: it is read again after the input buffer has been reused for the next case
+			describe := func() string {
+				return fmt.Sprintf("%s | length=%v version=%v date=%v", err.Error(), errors.Is(err, date.ErrInvalidLength), errors.Is(err, date.ErrUnsupportedVersion), errors.Is(err, date.ErrInvalidDate))
+			}
+			w.RetainFunc(c, "UnmarshalBinary error", describe, describe())
+		}
 		if !bytes.Equal(data, snapshot) {
 			w.Fail(c, "input-modified", fmt.Sprintf("UnmarshalBinary changed its input %v -> %v", snapshot, data))
 		}
@@ -349,6 +356,14 @@ func TestCheck(t *testing.T) {
 			}
 		}
 		ys = append(ys, 999999999, -999999999, 999999998, -999999998)
+		for _, y := range append([]int64{}, ys...) { // the century years next to every ladder year (leap only every fourth of them)
+			c := y / 100 * 100
+			for _, yy := range []int64{c, c + 100, c - 100, c + 200} {
+				if yy >= -999999999 && yy <= 999999999 {
+					ys = append(ys, yy)
+				}
+			}
+		}
 		r.Parallel(int64(len(ys)), 4, func(w *vkit.W, lo, hi int64) {
 			for i := lo; i < hi; i++ {
 				y := ys[i]
